@@ -14,7 +14,8 @@ OUT = "/verif/seeded"
 OUT_OF_SCOPE = {"C20-r3-m3": "needs Codec(cumulative_payloads[d]=False): the property quantifies over format descriptors and imposed shapes "
                              "and fixes the layout as 'cumulative occupancies as segment ends'; the flag that asks for another layout is outside it"}
 ROUNDS = [("/var/tmp/mutants", "/var/tmp/seedres", ""), ("/var/tmp/mutants2", "/var/tmp/seedres2", "r2"),
-          ("/var/tmp/mutants3", "/var/tmp/seedres3", "r3"), ("/var/tmp/mutants4", "/var/tmp/seedres4", "r4")]
+          ("/var/tmp/mutants3", "/var/tmp/seedres3", "r3"), ("/var/tmp/mutants4", "/var/tmp/seedres4", "r4"),
+          ("/var/tmp/mutants5", "/var/tmp/seedres5", "r5"), ("/var/tmp/mutants6", "/var/tmp/seedres6", "r6")]
 # changes that break another property's clause than the one they were written for: judged by that property's check
 OTHER_CHECK = {"C08-r4-m3": ("C10", "skips the deep copy of a depth-0 split: the result shares payload boxes with the operand, which C08's statement "
                                     "(a property of the result at return time) does not exclude; it is C10's no-aliasing clause")}
@@ -25,7 +26,7 @@ def main():
     head = subprocess.run(["git", "-C", "/repo", "rev-parse", "--short", "HEAD"], capture_output=True, text=True).stdout.strip()
     rows = []
     for stage, res, tag in ROUNDS:
-        for rf in sorted(glob.glob(f"{res}/C*-m*.json")):
+        for rf in sorted(glob.glob(f"{res}/[CR]*-m*.json")):
             name = os.path.basename(rf)[:-5]
             prop, m = name.split("-")
             try:
@@ -33,6 +34,20 @@ def main():
             except Exception:
                 continue
             src = f"{stage}/{prop}/{m}"
+            region = None
+            if prop.startswith("R"):
+                # region-based round: the change was written inside a source region and names the property it breaks
+                region = prop
+                try:
+                    prop = json.load(open(f"{src}/meta.json")).get("property")
+                except Exception:
+                    continue
+                m = region + m
+                chk_all = r.get("checks", {})
+                if chk_all.get(prop, {}).get("exit") != 1:
+                    other = [p for p, c in chk_all.items() if c.get("exit") == 1]
+                    if other:
+                        OTHER_CHECK.setdefault(f"{prop}-{tag}-{m}", (other[0], "written for a source region; its meta.json lists this property among those it breaks"))
             ok = r.get("demo_clean") == 0 and r.get("applies") and r.get("baseline_ok") and r.get("demo_mutant") not in (0, None)
             label0 = (tag + "-" if tag else "") + m
             judge = OTHER_CHECK.get(f"{prop}-{label0}", (prop, ""))[0]
@@ -62,7 +77,9 @@ def main():
                     "property": prop,
                     "origin": "independent sub-agent given only the property text and a scratch worktree"
                               + ({"r2": " (second round, on the repaired tree)", "r3": " (third round: history- and entry-point-dependent breaks)",
-                                 "r4": " (fourth round: shared helpers, second uses, boundary values, legal type variety, ordering)"}.get(tag, "")),
+                                 "r4": " (fourth round: shared helpers, second uses, boundary values, legal type variety, ordering)",
+                                 "r5": " (fifth round: Fiber- vs Tensor-level forms, compositions, aggregate sums, fast paths, cleanup, shared attributes)",
+                                 "r6": " (sixth round: written for a region of the source, naming the property it breaks)"}.get(tag, "")),
                     "confirmed": {"against_repo_head": head, "demo_on_clean_tree_exit": r.get("demo_clean"), "patch_applies": True,
                                   "baseline_453_unchanged": True, "demo_with_patch_exit": r.get("demo_mutant"),
                                   "how": "tools/try_mutant.py (scratch worktree of /repo HEAD; git apply; tools/baseline.sh; demo.py; "
@@ -75,7 +92,7 @@ def main():
     with open(f"{OUT}/INDEX.md", "w") as fh:
         fh.write("# Seeded property-breaking changes\n\nEach directory holds patch.diff, demo.py (passes on the clean tree, fails with the "
                  "patch) and meta.json.\nAll keep the repository's 453-test baseline passing.  `check` is the result of the property's "
-                 "quick check on the patched tree\n(r2 = second round, written after the first-round repairs; r3 = third round; r4 = fourth round).\n\n")
+                 "quick check on the patched tree\n(r2 = second round, written after the first-round repairs; r3..r5 = later property-based rounds; r6 = region-based round, the directory name carries the region).\n\n")
         fh.write("| property | mutant | verification | check | first violation keys | change | needs |\n|---|---|---|---|---|---|---|\n")
         for r in rows:
             fh.write("| " + " | ".join(str(x).replace("|", "/").replace("\n", " ") for x in r) + " |\n")
